@@ -102,6 +102,12 @@ func (x *wireExtractor) undecodedReads(body *ast.BlockStmt) map[*ast.CallExpr]bo
 				if call, ok := ast.Unparen(n.Results[0]).(*ast.CallExpr); ok {
 					handedOn[call] = true
 				}
+				// `return b` of a reader object that keeps the error in a field
+				if id, ok := ast.Unparen(n.Results[0]).(*ast.Ident); ok {
+					if obj := x.info.ObjectOf(id); obj != nil && isByteSlice(obj.Type()) {
+						returnedVars[obj] = true
+					}
+				}
 			}
 			// `b, err := data.Read(a, b); ...; return b, nil`: the same, through a variable
 			if len(n.Results) == 2 {
@@ -173,7 +179,8 @@ func (x *wireExtractor) forwardsRead(call *ast.CallExpr) bool {
 		return false
 	}
 	sig := fn.Type().(*types.Signature)
-	if sig.Results().Len() != 2 || !isByteSlice(sig.Results().At(0).Type()) {
+	// ([]byte, error), or []byte alone for a reader object that remembers its first error
+	if (sig.Results().Len() != 2 && sig.Results().Len() != 1) || !isByteSlice(sig.Results().At(0).Type()) {
 		return false
 	}
 	found := false
@@ -209,7 +216,7 @@ func (x *wireExtractor) forwardsRead(call *ast.CallExpr) bool {
 		ast.Inspect(decl.Body, func(n ast.Node) bool {
 			switch y := n.(type) {
 			case *ast.ReturnStmt:
-				if len(y.Results) == 2 {
+				if len(y.Results) == 2 || len(y.Results) == 1 {
 					if id, ok := ast.Unparen(y.Results[0]).(*ast.Ident); ok && x.info.Uses[id] == readVars[0] {
 						returned = true
 					}
